@@ -426,7 +426,7 @@ def run(ctx):
         gg = C.G(g)
         need = ["read", "add_arg", "execute", "new_builder", "combine", "flag:have_pending_command", "opt:no_run_if_empty", "opt:out_of_chars", "opt:exit_if_pass_char_limit"]
         have = {C.base(n) for n in gg.out}
-        miss = [n for n in need if n not in have]
+        miss = [n for n in need if n not in have and not (n.startswith("opt:") and "not_" + n in have)]     # (`!opt` read as a test of its own)
         ctx.ob("R5", "atoms", not miss, "process_input decision atoms missing: %s (cannot build the truth table; fail closed)" % miss, fn=f)
         atoms = ["read", "add0", "out_of_chars", "exit_flag", "max_args", "max_lines", "pending", "exec0", "add1", "no_run_if_empty", "exec1"]
         n_rows = 0
@@ -437,7 +437,7 @@ def run(ctx):
             # identify first/second add_arg: the one fed by read is #0
             first_add = [n for n in adds if any(b == n for a, l, b in edges if C.base(a) == "read")]
             second_add = [n for n in adds if n not in first_add]
-            final_exec = [n for n in execs if any(C.base(a) in ("opt:no_run_if_empty", "flag:have_pending_command") and b == n and _from_eof(gg, a) for a, l, b in edges)]
+            final_exec = [n for n in execs if any(C.base(a) in ("opt:no_run_if_empty", "not_opt:no_run_if_empty", "flag:have_pending_command") and b == n and _from_eof(gg, a) for a, l, b in edges)]
             loop_exec = [n for n in execs if n not in final_exec]
             if len(first_add) != 1 or len(second_add) != 1 or len(final_exec) != 1 or len(loop_exec) != 1:
                 ctx.ob("R5", "sites", False, "expected one add_arg per attempt (first, retry) and one execute per flush point (loop, end); got add_arg %s, execute %s" % (adds, execs), fn=f)
@@ -462,6 +462,7 @@ def run(ctx):
                     if tr != want:
                         bad_rows.append((a, tr, want))
                 seen = set()
+                shown = []
                 for a, tr, want in bad_rows:
                     key = (tuple(tr or []), tuple(want))
                     if key in seen:
@@ -469,9 +470,9 @@ def run(ctx):
                     seen.add(key)
                     if len(seen) > 6:
                         break
-                    ctx.ob("R5", "row:%s" % "/".join(want), False,
-                           "process_input deviates from the reference flush-and-retry loop for atoms %s:\n  code:      %s\n  reference: %s" % ({k: v for k, v in a.items()}, tr, want), fn=f, how="event-graph simulation")
-                ctx.ob("R5", "truth-table", not bad_rows, "%d of %d atom assignments deviate from the reference loop" % (len(bad_rows), n_rows), fn=f, how="event-graph simulation over %d assignments" % n_rows)
+                    shown.append("for atoms %s:\n  code:      %s\n  reference: %s" % ({k: v for k, v in a.items()}, tr, want))
+                # (one obligation for the whole table: its verdict on either normal form stands for all rows)
+                ctx.ob("R5", "truth-table", not bad_rows, "%d of %d atom assignments deviate from the reference flush-and-retry loop%s" % (len(bad_rows), n_rows, "".join("\n" + x for x in shown)), fn=f, how="event-graph simulation over %d assignments" % n_rows)
         # have_pending_command: set true on every path from an accepted argument to the next read; never reset
         hp = C.find_local(f, "have_pending_command", ty="bool", pred=C.bool_flag_with_both_constants)
         if not hp:
